@@ -24,6 +24,8 @@ import (
 	"os"
 	"os/exec"
 	"path/filepath"
+	"strconv"
+	"strings"
 	"syscall"
 	"time"
 
@@ -39,7 +41,7 @@ type c15Req struct {
 	Setenv map[string]string `json:"setenv"` // hex -> hex
 	Unset  []string          `json:"unset"`  // hex
 	Stdin  string            `json:"stdin"`  // hex: content of the caller's stdin
-	So     string            `json:"so"`     // Exec: nil | buf | os
+	So     string            `json:"so"`     // Exec: nil | buf | os | fail:N (a writer that accepts N bytes, then fails)
 	Se     string            `json:"se"`
 	Dump   string            `json:"dump"` // path of the helper child's report
 	Tmp    string            `json:"tmp"`  // directory for the capture files
@@ -228,11 +230,15 @@ func c15Do(q c15Req) (res c15Res) {
 			text, rerr = sh.OutputWith(env, cmd, args...)
 		case "Exec":
 			pick := func(s string, b *bytes.Buffer, f *os.File) io.Writer {
-				switch s {
-				case "buf":
+				switch {
+				case s == "buf":
 					return b
-				case "os":
+				case s == "os":
 					return f
+				case strings.HasPrefix(s, "fail:"):
+					// accepts n bytes (kept in b), then every Write fails
+					n, _ := strconv.Atoi(s[5:])
+					return &c15FailWriter{limit: n, got: b}
 				}
 				return nil
 			}
@@ -269,6 +275,25 @@ func c15Do(q c15Req) (res c15Res) {
 	res.BufErr = hex.EncodeToString(be.Bytes())
 	res.Dump = c15ReadDump(q.Dump)
 	return res
+}
+
+// c15FailWriter accepts limit bytes, then fails (a full disk, a closed connection).
+type c15FailWriter struct {
+	limit int
+	got   *bytes.Buffer
+}
+
+func (w *c15FailWriter) Write(p []byte) (int, error) {
+	room := w.limit - w.got.Len()
+	if len(p) <= room {
+		return w.got.Write(p)
+	}
+	if room > 0 {
+		w.got.Write(p[:room])
+	} else {
+		room = 0
+	}
+	return room, errors.New("c15 writer: no space left")
 }
 
 func c15FillErr(res *c15Res, err error) {
